@@ -862,6 +862,9 @@ func exec(c vh.Case, o *vh.Out) {
 			res = class(err)
 			var final []string
 			wantClass, final = specMv(spec, src, dst)
+			if res == "intoself" {
+				o.Kind("mv-into-self-refused")
+			}
 			if res == "ok" && wantClass == "ok" {
 				o.Kind("mv-ok")
 				if len(src.comps) > 0 && !src.trailing {
@@ -871,9 +874,6 @@ func exec(c vh.Case, o *vh.Out) {
 					}
 					if eqPath(src.comps, final) {
 						o.Kind("mv-samepath")
-					}
-					if isPrefix(src.comps, final) && !eqPath(src.comps, final) {
-						o.Kind("mv-into-self")
 					}
 				}
 				o.Nontrivial()
